@@ -354,17 +354,23 @@ Section HistoryProofs.
   Qed.
 
   (* ---- record-level rescaling ---- *)
-  Definition column_rescaled (s : st) (ns no : list T) (row : nat * nat * nat) (col : list Z) : Prop :=
+  (* stated on the record's contents: integer columns cols, the arrays rs, ro its scales/offsets refer to *)
+  Definition scale_of (rs : list T) (a : nat) : T := at3 rs (snd (fst (view_row a))).
+  Definition offset_of (ro : list T) (a : nat) : T := at3 ro (snd (view_row a)).
+  Definition col_of (cols : list (list Z)) (k : nat) : list Z := nth k cols [].
+  Definition column_rescaled_c (cols : list (list Z)) (rs ro ns no : list T) (row : nat * nat * nat) (col : list Z) : Prop :=
     let '(a, i, j) := row in
-    Forall2 (fun X X' => restore (present X (rec_scale s a) (rec_offset s a)) (at3 ns i) (at3 no j) = Ok X')
-            (column s (rec_dim a)) col.
+    Forall2 (fun X X' => restore (present X (scale_of rs a) (offset_of ro a)) (at3 ns i) (at3 no j) = Ok X')
+            (col_of cols (rec_dim a)) col.
+  Definition column_rescaled (s : st) := column_rescaled_c (ints s) (get (heap s) (r_s s)) (get (heap s) (r_o s)).
 
   Lemma new_column_ok : forall s ns no row col,
     new_column s ns no row = Ok col -> column_rescaled s ns no row col /\ Forall fitsP col.
   Proof.
     intros s ns no [[a i] j] col H. unfold Scaling.new_column in H. apply mapM_ok in H.
     unfold Scaling.presented in H. split.
-    - unfold column_rescaled. revert col H. generalize (column s (rec_dim a)) as l.
+    - unfold column_rescaled, column_rescaled_c. change (col_of (ints s) (rec_dim a)) with (column s (rec_dim a)).
+      revert col H. generalize (column s (rec_dim a)) as l.
       induction l as [|X r IH]; intros col H; cbn [map] in H; inversion H; subst; constructor; auto.
     - eapply Forall2_Forall_r; [exact H|]. intros v X Hv. eapply restore_fits. exact Hv.
   Qed.
@@ -392,19 +398,22 @@ Section HistoryProofs.
   Qed.
 
   (* ---- write_points ---- *)
-  Definition scaling_equal (s : st) (ws wo : list T) : bool :=
-    arr_eqb T teqb (get (heap s) (r_s s)) ws && arr_eqb T teqb (get (heap s) (r_o s)) wo.
+  Definition scaling_equal_c (rs ro ws wo : list T) : bool := arr_eqb T teqb rs ws && arr_eqb T teqb ro wo.
+  Definition scaling_equal (s : st) := scaling_equal_c (get (heap s) (r_s s)) (get (heap s) (r_o s)).
 
-  (* what a file written from state s by a writer with scaling ws, wo holds *)
-  Definition file_of (s : st) (ws wo : list T) (f : file T) : Prop :=
+  (* what a file written from a record (cols, rs, ro) by a writer with scaling ws, wo holds *)
+  Definition file_of_c (cols : list (list Z)) (rs ro ws wo : list T) (f : file T) : Prop :=
     f_scales f = ws /\ f_offsets f = wo /\
-    (column s 0 = [] /\ f_ints f = [[]; []; []]
-     \/ column s 0 <> [] /\ scaling_equal s ws wo = true /\ f_ints f = ints s
-     \/ column s 0 <> [] /\ scaling_equal s ws wo = false /\ Forall2 (column_rescaled s ws wo) gen_rescale_axes (f_ints f)).
+    (col_of cols 0 = [] /\ f_ints f = [[]; []; []]
+     \/ col_of cols 0 <> [] /\ scaling_equal_c rs ro ws wo = true /\ f_ints f = cols
+     \/ col_of cols 0 <> [] /\ scaling_equal_c rs ro ws wo = false
+        /\ Forall2 (column_rescaled_c cols rs ro ws wo) gen_rescale_axes (f_ints f)).
+  Definition file_of (s : st) := file_of_c (ints s) (get (heap s) (r_s s)) (get (heap s) (r_o s)).
 
-  Definition overflows (s : st) (ws wo : list T) : Prop :=
-    exists a i j X, In (a, i, j) gen_rescale_axes /\ In X (column s (rec_dim a))
-      /\ restore (present X (rec_scale s a) (rec_offset s a)) (at3 ws i) (at3 wo j) = Err EOverflow.
+  Definition overflows_c (cols : list (list Z)) (rs ro ws wo : list T) : Prop :=
+    exists a i j X, In (a, i, j) gen_rescale_axes /\ In X (col_of cols (rec_dim a))
+      /\ restore (present X (scale_of rs a) (offset_of ro a)) (at3 ws i) (at3 wo j) = Err EOverflow.
+  Definition overflows (s : st) := overflows_c (ints s) (get (heap s) (r_s s)) (get (heap s) (r_o s)).
 
   Lemma write_points_spec : forall s wsid woid, wf s ->
     let ws := get (heap s) wsid in let wo := get (heap s) woid in
@@ -416,21 +425,26 @@ Section HistoryProofs.
     end.
   Proof.
     intros s wsid woid W ws wo. unfold Scaling.write_points. fold ws wo.
-    destruct (column s 0) as [|x0 r0] eqn:C0.
-    - cbn. split; [reflexivity|]. split.
-      + unfold file_of. cbn. repeat split. left. split; [exact C0|reflexivity].
+    destruct (Scaling.column T s 0) as [|x0 r0] eqn:C0.
+    - cbn [fst snd]. split; [reflexivity|]. split.
+      + unfold file_of. cbn [f_scales f_offsets f_ints]. split; [reflexivity|]. split; [reflexivity|].
+        left. split; [exact C0|reflexivity].
       + unfold cols_fit. repeat constructor.
-    - fold (scaling_equal s ws wo). destruct (scaling_equal s ws wo) eqn:SE.
-      + cbn. split; [reflexivity|]. split.
-        * unfold file_of. cbn. repeat split. right. left. rewrite C0. repeat split; auto. discriminate.
+    - assert (NE : column s 0 <> []) by (rewrite C0; discriminate).
+      change (arr_eqb T teqb (get (heap s) (r_s s)) ws && arr_eqb T teqb (get (heap s) (r_o s)) wo)
+        with (scaling_equal s ws wo). destruct (scaling_equal s ws wo) eqn:SE.
+      + cbn [fst snd]. split; [reflexivity|]. split.
+        * unfold file_of. cbn [f_scales f_offsets f_ints]. split; [reflexivity|]. split; [reflexivity|].
+          right. left. auto.
         * apply (wf_fit _ W).
       + unfold Scaling.rec_change_scaling. fold ws wo.
         destruct (new_columns s ws wo) as [cols|e] eqn:NC.
-        * cbn. split; [destruct s; reflexivity|].
+        * cbn [fst snd heap h_s h_o r_s r_o ints]. split; [destruct s; reflexivity|].
           apply new_columns_ok in NC. destruct NC as [N1 N2]. split; [|exact N2].
-          unfold file_of. cbn. repeat split. right. right. rewrite C0. repeat split; auto. discriminate.
-        * cbn. split; [reflexivity|]. apply new_columns_err in NC. destruct NC as [-> NC].
-          repeat split; auto. rewrite C0. discriminate.
+          unfold file_of. cbn [f_scales f_offsets f_ints]. split; [reflexivity|]. split; [reflexivity|].
+          right. right. auto.
+        * cbn [fst snd]. split; [reflexivity|]. apply new_columns_err in NC. destruct NC as [-> NC].
+          repeat split; auto. discriminate.
   Qed.
 
   (* ---- one step keeps the invariant ---- *)
@@ -492,4 +506,504 @@ Section HistoryProofs.
     pose proof (step_wf s o W) as W1. destruct (step s o) as [s1 x]. cbn [fst] in W1.
     specialize (IH s1 W1). destruct (run s1 r) as [s2 xs]. exact IH.
   Qed.
+
+  (* ---- the writer: Write and StreamInto ---- *)
+  Lemma alloc2_facts : forall s a b, wf s ->
+    let s2 := mkst ((heap s ++ [a]) ++ [b]) (h_s s) (h_o s) (r_s s) (r_o s) (ints s) in
+    wf s2 /\ same_objects s s2 /\ get (heap s2) (length (heap s)) = a /\ get (heap s2) (length (heap s ++ [a])) = b
+    /\ get (heap s2) (r_s s2) = get (heap s) (r_s s) /\ get (heap s2) (r_o s2) = get (heap s) (r_o s).
+  Proof.
+    intros s a b [H1 H2 H3 H4 H5] s2. subst s2. cbn [heap h_s h_o r_s r_o ints].
+    assert (L : forall i, (i < length (heap s))%nat -> get ((heap s ++ [a]) ++ [b]) i = get (heap s) i).
+    { intros i Hi. rewrite get_app_old by (rewrite app_length; cbn; lia). apply get_app_old. exact Hi. }
+    split; [|split; [|split; [|split; [|split]]]].
+    - constructor; cbn [heap h_s h_o r_s r_o ints]; rewrite ?app_length; cbn [length]; try lia. exact H5.
+    - unfold same_objects. cbn [heap h_s h_o r_s r_o ints]. repeat split; auto.
+      rewrite !app_length. cbn. lia.
+    - rewrite get_app_old by (rewrite app_length; cbn; lia). apply get_app_new.
+    - apply get_app_new.
+    - apply L. exact H3.
+    - apply L. exact H4.
+  Qed.
+
+  Definition written (s : st) (ws wo : list T) (r : st * out T) : Prop :=
+    same_objects s (fst r) /\
+    match snd r with
+    | OFile f => file_of_c (ints s) (get (heap s) (r_s s)) (get (heap s) (r_o s)) ws wo f /\ cols_fit (f_ints f)
+    | OErr e => e = EOverflow /\ col_of (ints s) 0 <> []
+                /\ scaling_equal_c (get (heap s) (r_s s)) (get (heap s) (r_o s)) ws wo = false
+                /\ overflows_c (ints s) (get (heap s) (r_s s)) (get (heap s) (r_o s)) ws wo
+    | ONone => False
+    end.
+
+  Lemma write_points_alloc2 : forall s a b, wf s ->
+    written s a b (write_points (mkst ((heap s ++ [a]) ++ [b]) (h_s s) (h_o s) (r_s s) (r_o s) (ints s))
+                                (length (heap s)) (length (heap s ++ [a]))).
+  Proof.
+    intros s a b W. destruct (alloc2_facts s a b W) as (W2 & SO & Ga & Gb & Grs & Gro).
+    pose proof (write_points_spec _ (length (heap s)) (length (heap s ++ [a])) W2) as HS. cbv zeta in HS.
+    unfold written. unfold Scaling.arr3 in *.
+    match goal with |- context [fst ?w] => set (r := w) in * end.
+    destruct r as [s' x]. cbn [fst snd] in *. destruct HS as [F S]. subst s'. split; [exact SO|].
+    unfold file_of, overflows, scaling_equal, Scaling.column in S.
+    cbn [heap h_s h_o r_s r_o ints] in *.
+    rewrite Ga, Gb, Grs, Gro in S. exact S.
+  Qed.
+
+  Lemma step_stream_spec : forall s ws wo, wf s -> written s ws wo (step s (StreamInto ws wo)).
+  Proof. intros s ws wo W. cbn [Scaling.step Scaling.alloc heap h_s h_o r_s r_o ints]. apply write_points_alloc2. exact W. Qed.
+
+  (* las.write: the file carries the header's scaling *)
+  Lemma step_write_spec : forall s, wf s ->
+    written s (get (heap s) (h_s s)) (get (heap s) (h_o s)) (step s Write).
+  Proof.
+    intros s W. cbn [Scaling.step Scaling.alloc heap h_s h_o r_s r_o ints].
+    rewrite (get_app_old (heap s) (get (heap s) (h_s s)) (h_o s)) by apply (wf_ho _ W).
+    apply write_points_alloc2. exact W.
+  Qed.
+
+  (* ---- las.x = vals ---- *)
+  Definition assigned (cols : list (list Z)) (ss so : list T) (a : nat) (vals : list T) (cols' : list (list Z)) (x : out T) : Prop :=
+    match x with
+    | ONone => vals = [] /\ cols' = cols
+               \/ exists xs, Forall2 (fun v X => store v (scale_of ss a) (offset_of so a) = Ok X) vals xs
+                             /\ length xs = length (col_of cols (rec_dim a)) /\ cols' = set_at cols (rec_dim a) xs
+    | OErr e => cols' = cols /\
+                (e = EOverflow /\ (exists v, In v vals /\ store v (scale_of ss a) (offset_of so a) = Err EOverflow)
+                 \/ e = EValue /\ length vals <> length (col_of cols (rec_dim a)))
+    | OFile _ => False
+    end.
+
+  Lemma assign_rec_spec : forall s a vals,
+    let r := assign_rec s a vals in
+    heap (fst r) = heap s /\ h_s (fst r) = h_s s /\ h_o (fst r) = h_o s /\ r_s (fst r) = r_s s /\ r_o (fst r) = r_o s /\
+    assigned (ints s) (get (heap s) (r_s s)) (get (heap s) (r_o s)) a vals (ints (fst r)) (snd r).
+  Proof.
+    intros s a vals. unfold Scaling.assign_rec. destruct vals as [|v0 vr].
+    - cbn. repeat split; auto.
+    - destruct (mapM _ (v0 :: vr)) as [xs|e] eqn:M.
+      + pose proof (mapM_ok _ _ _ _ _ M) as F.
+        assert (L : length xs = length (v0 :: vr)).
+        { clear M. revert F. generalize (v0 :: vr) as l. intros l F. induction F; cbn; auto. }
+        destruct (Nat.eqb (length xs) (length (column s (rec_dim a)))) eqn:E.
+        * apply Nat.eqb_eq in E. cbn [fst snd heap h_s h_o r_s r_o ints]. repeat split; auto.
+          unfold assigned. right. exists xs. repeat split; auto.
+        * apply Nat.eqb_neq in E. cbn [fst snd heap h_s h_o r_s r_o ints]. repeat split; auto.
+          right. split; [reflexivity|]. rewrite <- L. exact E.
+      + cbn [fst snd heap h_s h_o r_s r_o ints]. repeat split; auto. apply mapM_err in M. destruct M as [v [Hin Hv]].
+        pose proof (store_err _ _ _ _ Hv) as ->. left. split; [reflexivity|]. exists v. auto.
+  Qed.
+
+  Lemma step_assign_spec : forall s a vals,
+    let r := step s (Assign a vals) in
+    heap (fst r) = heap s /\ h_s (fst r) = h_s s /\ h_o (fst r) = h_o s
+    /\ r_s (fst r) = h_s s /\ r_o (fst r) = h_o s      (* the record now uses the header's arrays, even when the assignment fails *)
+    /\ assigned (ints s) (get (heap s) (h_s s)) (get (heap s) (h_o s)) a vals (ints (fst r)) (snd r).
+  Proof. intros s a vals. cbn [Scaling.step]. apply (assign_rec_spec (mkst (heap s) (h_s s) (h_o s) (h_s s) (h_o s) (ints s))). Qed.
+
+  Lemma step_rec_assign_spec : forall s a vals,
+    let r := step s (RecAssign a vals) in
+    heap (fst r) = heap s /\ h_s (fst r) = h_s s /\ h_o (fst r) = h_o s /\ r_s (fst r) = r_s s /\ r_o (fst r) = r_o s
+    /\ assigned (ints s) (get (heap s) (r_s s)) (get (heap s) (r_o s)) a vals (ints (fst r)) (snd r).
+  Proof. intros s a vals. cbn [Scaling.step]. apply assign_rec_spec. Qed.
+
+  (* ---- las.change_scaling ---- *)
+  Lemma step_change_scaling_spec : forall s ns no, wf s ->
+    let r := step s (ChangeScaling ns no) in
+    let rs := get (heap s) (r_s s) in let ro := get (heap s) (r_o s) in
+    let ns' := match ns with Some a => a | None => rs end in
+    let no' := match no with Some a => a | None => ro end in
+    (forall i, (i < length (heap s))%nat -> get (heap (fst r)) i = get (heap s) i) /\
+    match snd r with
+    | ONone => get (heap (fst r)) (r_s (fst r)) = ns' /\ get (heap (fst r)) (r_o (fst r)) = no'
+               /\ h_s (fst r) = (match ns with Some _ => r_s (fst r) | None => h_s s end)
+               /\ h_o (fst r) = (match no with Some _ => r_o (fst r) | None => h_o s end)
+               /\ Forall2 (column_rescaled_c (ints s) rs ro ns' no') gen_rescale_axes (ints (fst r))
+    | OErr e => e = EOverflow /\ overflows_c (ints s) rs ro ns' no'
+                /\ ints (fst r) = ints s /\ r_s (fst r) = r_s s /\ r_o (fst r) = r_o s /\ h_s (fst r) = h_s s /\ h_o (fst r) = h_o s
+    | OFile _ => False
+    end.
+  Proof.
+    intros s ns no W r rs ro ns' no'. subst r. cbn [Scaling.step].
+    set (p1 := match ns with Some a => alloc s a | None => (s, r_s s) end).
+    assert (A1 : wf (fst p1) /\ same_objects s (fst p1) /\ get (heap (fst p1)) (snd p1) = ns' /\ (snd p1 < length (heap (fst p1)))%nat).
+    { subst p1 ns'. destruct ns as [a|].
+      - destruct (alloc_wf s a W) as (Hw & Hi & Hg). pose proof (alloc_same s a). auto.
+      - cbn. split; [exact W|]. split; [apply same_objects_refl|]. split; [reflexivity|apply (wf_rs _ W)]. }
+    destruct p1 as [s1 sid]. cbn [fst snd] in A1. destruct A1 as (W1 & SO1 & G1 & L1).
+    set (p2 := match no with Some a => alloc s1 a | None => (s1, r_o s1) end).
+    assert (A2 : wf (fst p2) /\ same_objects s1 (fst p2) /\ get (heap (fst p2)) (snd p2) = no' /\ (snd p2 < length (heap (fst p2)))%nat).
+    { subst p2 no'. destruct no as [a|].
+      - destruct (alloc_wf s1 a W1) as (Hw & Hi & Hg). pose proof (alloc_same s1 a). auto.
+      - cbn. split; [exact W1|]. split; [apply same_objects_refl|]. split; [|apply (wf_ro _ W1)].
+        destruct SO1 as (_ & _ & -> & _ & _ & _ & Hh). apply Hh. apply (wf_ro _ W). }
+    destruct p2 as [s2 oid]. cbn [fst snd] in A2. destruct A2 as (W2 & SO2 & G2 & L2).
+    pose proof (same_objects_trans _ _ _ SO1 SO2) as SO.
+    assert (G1' : get (heap s2) sid = ns').
+    { destruct SO2 as (_ & _ & _ & _ & _ & _ & Hh). rewrite Hh by exact L1. exact G1. }
+    destruct SO as (I & RS & RO & HS & HO & LL & HH).
+    assert (Grs : get (heap s2) (r_s s2) = rs) by (rewrite RS; apply HH; apply (wf_rs _ W)).
+    assert (Gro : get (heap s2) (r_o s2) = ro) by (rewrite RO; apply HH; apply (wf_ro _ W)).
+    unfold Scaling.rec_change_scaling. rewrite G1', G2.
+    destruct (new_columns s2 ns' no') as [cols|e] eqn:NC; cbn [fst snd heap h_s h_o r_s r_o ints].
+    - split; [exact HH|]. apply new_columns_ok in NC. destruct NC as [N1 _].
+      unfold column_rescaled in N1. rewrite Grs, Gro, I in N1.
+      split; [exact G1'|]. split; [exact G2|]. split; [destruct ns; auto|]. split; [destruct no; auto|]. exact N1.
+    - split; [exact HH|]. apply new_columns_err in NC. destruct NC as [-> NC].
+      split; [reflexivity|]. split; [|auto].
+      unfold overflows_c. change (column s2) with (col_of (ints s2)) in NC.
+      unfold Scaling.rec_scale, Scaling.rec_offset in NC. rewrite Grs, Gro, I in NC. exact NC.
+  Qed.
 End HistoryProofs.
+
+Arguments wf {T}. Arguments same_objects {T}.
+
+(* ------------------------------------------------------------------------------------------------ *)
+(* D. the axis tables of the source, and the per-axis reading of the generic statements              *)
+(* ------------------------------------------------------------------------------------------------ *)
+
+Lemma rescale_axes_table : gen_rescale_axes = [(0, 0, 0); (1, 1, 1); (2, 2, 2)]%nat.
+Proof. reflexivity. Qed.
+Lemma view_axes_table : gen_view_axes = [(0, 0, 0); (1, 1, 1); (2, 2, 2)]%nat.
+Proof. reflexivity. Qed.
+
+Lemma view_row_axis : forall k, (k < 3)%nat -> view_row k = (k, k, k).
+Proof. intros [|[|[|k]]] H; try lia; reflexivity. Qed.
+
+Section Axes.
+  Variable T : Type.
+  Variable present : Z -> T -> T -> T.
+  Variable restore : T -> T -> T -> result Z.
+  Variable teqb : T -> T -> bool.
+  Variable d : T.
+
+  (* X' is what the record-level rescaling stores for the integer X of axis k *)
+  Definition rescaled_int (rs ro ws wo : list T) (k : nat) (X X' : Z) : Prop :=
+    restore (present X (at3 T d rs k) (at3 T d ro k)) (at3 T d ws k) (at3 T d wo k) = Ok X'.
+
+  Lemma rescaled_axes : forall cols rs ro ns no fcols,
+    Forall2 (column_rescaled_c T present restore d cols rs ro ns no) gen_rescale_axes fcols ->
+    length fcols = 3%nat /\
+    forall k, (k < 3)%nat -> Forall2 (rescaled_int rs ro ns no k) (nth k cols []) (nth k fcols []).
+  Proof.
+    intros cols rs ro ns no fcols H. rewrite rescale_axes_table in H.
+    inversion H as [|r0 c0 l0 l0' H0 T0]; subst. inversion T0 as [|r1 c1 l1 l1' H1 T1]; subst.
+    inversion T1 as [|r2 c2 l2 l2' H2 T2]; subst. inversion T2; subst.
+    split; [reflexivity|]. intros [|[|[|k]]] Hk; try lia; cbn [nth]; [exact H0|exact H1|exact H2].
+  Qed.
+
+  Lemma overflows_axes : forall cols rs ro ws wo,
+    overflows_c T present restore d cols rs ro ws wo ->
+    exists k X, (k < 3)%nat /\ In X (nth k cols []) /\
+      restore (present X (at3 T d rs k) (at3 T d ro k)) (at3 T d ws k) (at3 T d wo k) = Err EOverflow.
+  Proof.
+    intros cols rs ro ws wo (a & i & j & X & Hin & HX & HR). rewrite rescale_axes_table in Hin.
+    cbn [In] in Hin. destruct Hin as [E|[E|[E|[]]]]; inversion E; subst.
+    - exists 0%nat, X. split; [lia|]. split; [exact HX|exact HR].
+    - exists 1%nat, X. split; [lia|]. split; [exact HX|exact HR].
+    - exists 2%nat, X. split; [lia|]. split; [exact HX|exact HR].
+  Qed.
+
+  (* the outcome of a write by a writer with scaling ws, wo, read axis by axis *)
+  Definition file_axes (cols : list (list Z)) (rs ro ws wo : list T) (f : file T) : Prop :=
+    f_scales f = ws /\ f_offsets f = wo /\ cols_fit (f_ints f) /\
+    (nth 0 cols [] = [] /\ f_ints f = [[]; []; []]
+     \/ nth 0 cols [] <> [] /\ scaling_equal_c T teqb rs ro ws wo = true /\ f_ints f = cols
+     \/ nth 0 cols [] <> [] /\ scaling_equal_c T teqb rs ro ws wo = false /\ length (f_ints f) = 3%nat
+        /\ forall k, (k < 3)%nat -> Forall2 (rescaled_int rs ro ws wo k) (nth k cols []) (nth k (f_ints f) [])).
+
+  Definition write_outcome (s : st T) (ws wo : list T) (r : st T * out T) : Prop :=
+    let rs := get T (heap s) (r_s s) in let ro := get T (heap s) (r_o s) in
+    same_objects s (fst r) /\
+    match snd r with
+    | OFile f => file_axes (ints s) rs ro ws wo f
+    | OErr e => e = EOverflow /\ nth 0 (ints s) [] <> [] /\ scaling_equal_c T teqb rs ro ws wo = false /\
+                exists k X, (k < 3)%nat /\ In X (nth k (ints s) []) /\
+                  restore (present X (at3 T d rs k) (at3 T d ro k)) (at3 T d ws k) (at3 T d wo k) = Err EOverflow
+    | ONone => False
+    end.
+
+  Lemma written_outcome : forall s ws wo r,
+    written T present restore teqb d s ws wo r -> write_outcome s ws wo r.
+  Proof.
+    intros s ws wo [s' x] [SO H]. unfold write_outcome. cbn [fst snd] in *. split; [exact SO|].
+    destruct x as [|e|f]; [exact H| |].
+    - destruct H as (-> & NE & SE & OV). repeat split; auto. apply overflows_axes. exact OV.
+    - destruct H as [(FS & FO & FI) CF]. unfold file_axes. repeat split; auto.
+      destruct FI as [[E1 E2]|[(N & SE & E)|(N & SE & F2)]]; [left; auto|right; left; auto|right; right].
+      apply rescaled_axes in F2. destruct F2 as [L F2]. auto.
+  Qed.
+End Axes.
+
+(* ------------------------------------------------------------------------------------------------ *)
+(* E. the two instances                                                                              *)
+(* ------------------------------------------------------------------------------------------------ *)
+
+Lemma q_store_fits : forall v s o X, q_store_checked v s o = Ok X -> fitsP X.
+Proof. intros v s o X H. apply q_checked_ok in H. exact (proj2 H). Qed.
+Lemma q_restore_fits : forall v s o X, q_restore_checked v s o = Ok X -> fitsP X.
+Proof. intros v s o X H. apply q_rechecked_ok in H. exact (proj2 H). Qed.
+Lemma q_store_err : forall v s o e, q_store_checked v s o = Err e -> e = EOverflow.
+Proof. intros v s o e H. apply q_checked_err in H. exact (proj1 H). Qed.
+Lemma q_restore_err : forall v s o e, q_restore_checked v s o = Err e -> e = EOverflow.
+Proof. intros v s o e H. apply q_rechecked_err in H. exact (proj1 H). Qed.
+
+Lemma f_store_fits : forall v s o X, f_store_checked v s o = Ok X -> fitsP X.
+Proof. intros v s o X H. apply f_checked_ok in H. exact (proj2 H). Qed.
+Lemma f_restore_fits : forall v s o X, f_restore_checked v s o = Ok X -> fitsP X.
+Proof. intros v s o X H. apply f_rechecked_ok in H. exact (proj2 H). Qed.
+Lemma f_store_err : forall v s o e, f_store_checked v s o = Err e -> e = EOverflow.
+Proof. intros v s o e H. apply f_checked_err in H. exact (proj1 H). Qed.
+
+(* after any history the invariant holds: every integer of the record fits in 32 bits *)
+Lemma q_run_wf : forall ops s, wf s -> wf (fst (q_run s ops)).
+Proof. intros ops s. apply run_wf; [exact q_store_fits|exact q_restore_fits|exact q_restore_err]. Qed.
+Lemma f_run_wf : forall ops s, wf s -> wf (fst (f_run s ops)).
+Proof. intros ops s. apply run_wf; [exact f_store_fits|exact f_restore_fits|exact f_rechecked_err]. Qed.
+
+Lemma init_wf : forall T sc off cols, cols_fit cols -> wf (init T sc off cols).
+Proof. intros T sc off cols H. constructor; cbn; try lia. exact H. Qed.
+
+(* write / stream after any history *)
+Lemma q_write_after : forall ops s0, wf s0 ->
+  let s := fst (q_run s0 ops) in
+  write_outcome Q q_present q_restore_checked Qeq_bool 0%Q s (get Q (heap s) (h_s s)) (get Q (heap s) (h_o s)) (q_step s Write).
+Proof.
+  intros ops s0 W s. apply written_outcome.
+  apply step_write_spec; [exact q_restore_fits|exact q_restore_err|]. apply q_run_wf. exact W.
+Qed.
+
+Lemma q_stream_after : forall ops s0 ws wo, wf s0 ->
+  let s := fst (q_run s0 ops) in
+  write_outcome Q q_present q_restore_checked Qeq_bool 0%Q s ws wo (q_step s (StreamInto ws wo)).
+Proof.
+  intros ops s0 ws wo W s. apply written_outcome.
+  apply step_stream_spec; [exact q_restore_fits|exact q_restore_err|]. apply q_run_wf. exact W.
+Qed.
+
+Lemma f_write_after : forall ops s0, wf s0 ->
+  let s := fst (f_run s0 ops) in
+  write_outcome fl f_present f_restore_checked fl_eqb None s (get fl (heap s) (h_s s)) (get fl (heap s) (h_o s)) (f_step s Write).
+Proof.
+  intros ops s0 W s. apply written_outcome.
+  apply step_write_spec; [exact f_restore_fits|exact f_rechecked_err|]. apply f_run_wf. exact W.
+Qed.
+
+Lemma f_stream_after : forall ops s0 ws wo, wf s0 ->
+  let s := fst (f_run s0 ops) in
+  write_outcome fl f_present f_restore_checked fl_eqb None s ws wo (f_step s (StreamInto ws wo)).
+Proof.
+  intros ops s0 ws wo W s. apply written_outcome.
+  apply step_stream_spec; [exact f_restore_fits|exact f_rechecked_err|]. apply f_run_wf. exact W.
+Qed.
+
+(* ---- exact instance: what the file shows is within half a step of what the record showed ---- *)
+Lemma q_present_wd : forall X s s' o o', (s == s')%Q -> (o == o')%Q -> (q_present X s o == q_present X s' o')%Q.
+Proof. intros X s s' o o' Hs Ho. rewrite !q_present_law, Hs, Ho. reflexivity. Qed.
+
+Lemma arr_eqb_at3 : forall a b, arr_eqb Q Qeq_bool a b = true -> forall k, (at3 Q 0%Q a k == at3 Q 0%Q b k)%Q.
+Proof.
+  intros a b H. unfold arr_eqb in H. apply andb_true_iff in H. destruct H as [L F]. apply Nat.eqb_eq in L.
+  revert b L F. induction a as [|x a IH]; intros [|y b] L F k; cbn in L; try discriminate.
+  - reflexivity.
+  - cbn [combine forallb fst snd] in F. apply andb_true_iff in F. destruct F as [F1 F2].
+    destruct k as [|k]; unfold at3; cbn [nth].
+    + apply Qeq_bool_iff. exact F1.
+    + apply (IH b); [lia|exact F2].
+Qed.
+
+Definition q_close (rs ro ws wo : list Q) (k : nat) (X X' : Z) : Prop :=
+  (0 < at3 Q 0 ws k)%Q ->
+  (Qabs (q_present X' (at3 Q 0 ws k) (at3 Q 0 wo k) - q_present X (at3 Q 0 rs k) (at3 Q 0 ro k)) <= at3 Q 0 ws k / 2)%Q.
+
+Lemma Forall2_same : forall A (R : A -> A -> Prop) l, (forall x, R x x) -> Forall2 R l l.
+Proof. intros A R l H. induction l; constructor; auto. Qed.
+
+Lemma Forall2_impl : forall A B (R R' : A -> B -> Prop) l l', (forall a b, R a b -> R' a b) -> Forall2 R l l' -> Forall2 R' l l'.
+Proof. intros A B R R' l l' H F. induction F; constructor; auto. Qed.
+
+Lemma q_file_half_step : forall cols rs ro ws wo f,
+  file_axes Q q_present q_restore_checked Qeq_bool 0%Q cols rs ro ws wo f ->
+  nth 0 cols [] = [] /\ f_ints f = [[]; []; []]
+  \/ forall k, (k < 3)%nat -> Forall2 (q_close rs ro ws wo k) (nth k cols []) (nth k (f_ints f) []).
+Proof.
+  intros cols rs ro ws wo f (FS & FO & CF & [[E1 E2]|[(N & SE & E)|(N & SE & L & F2)]]).
+  - left. auto.
+  - right. intros k Hk. rewrite E. apply Forall2_same. intros X Hpos.
+    unfold scaling_equal_c in SE. apply andb_true_iff in SE. destruct SE as [S1 S2].
+    pose proof (arr_eqb_at3 _ _ S1 k) as Hs. pose proof (arr_eqb_at3 _ _ S2 k) as Ho.
+    rewrite (q_present_wd X _ _ _ _ Hs Ho).
+    setoid_replace (q_present X (at3 Q 0 ws k) (at3 Q 0 wo k) - q_present X (at3 Q 0 ws k) (at3 Q 0 wo k))%Q with 0%Q by ring.
+    cbn [Qabs Z.abs Qnum Qden]. apply Qlt_le_weak. apply Qlt_shift_div_l; [reflexivity|]. rewrite Qmult_0_l. exact Hpos.
+  - right. intros k Hk. eapply Forall2_impl; [|apply F2; exact Hk].
+    intros X X' HR Hpos. unfold rescaled_int in HR. apply q_rechecked_ok in HR. destruct HR as [-> _].
+    rewrite q_restore_law, <- q_store_law. apply q_half_step. exact Hpos.
+Qed.
+
+(* ------------------------------------------------------------------------------------------------ *)
+(* F. assignments and change_scaling, axis by axis                                                   *)
+(* ------------------------------------------------------------------------------------------------ *)
+
+Section AxesAssign.
+  Variable T : Type.
+  Variable present : Z -> T -> T -> T.
+  Variable store restore : T -> T -> T -> result Z.
+  Variable teqb : T -> T -> bool.
+  Variable d : T.
+  Hypothesis store_err : forall v s o e, store v s o = Err e -> e = EOverflow.
+  Hypothesis restore_fits : forall v s o X, restore v s o = Ok X -> fitsP X.
+  Hypothesis restore_err : forall v s o e, restore v s o = Err e -> e = EOverflow.
+
+  (* the record's column of axis a after `<axis> = vals` under scaling (sc, off), and the outcome *)
+  Definition assign_outcome (cols : list (list Z)) (sc off : T) (a : nat) (vals : list T) (cols' : list (list Z)) (x : out T) : Prop :=
+    match x with
+    | ONone => vals = [] /\ cols' = cols
+               \/ exists xs, Forall2 (fun v X => store v sc off = Ok X) vals xs
+                             /\ length xs = length (nth a cols []) /\ cols' = set_at cols a xs
+    | OErr e => cols' = cols /\
+                (e = EOverflow /\ (exists v, In v vals /\ store v sc off = Err EOverflow)
+                 \/ e = EValue /\ length vals <> length (nth a cols []))
+    | OFile _ => False
+    end.
+
+  Lemma assigned_axis : forall cols ss so a vals cols' x, (a < 3)%nat ->
+    assigned T store d cols ss so a vals cols' x ->
+    assign_outcome cols (at3 T d ss a) (at3 T d so a) a vals cols' x.
+  Proof.
+    intros cols ss so a vals cols' x Ha H. unfold assigned, scale_of, offset_of, rec_dim, col_of in H.
+    rewrite (view_row_axis a Ha) in H. exact H.
+  Qed.
+
+  Lemma step_assign_axis : forall s a vals, (a < 3)%nat ->
+    let r := step T present store restore teqb d s (Assign a vals) in
+    heap (fst r) = heap s /\ h_s (fst r) = h_s s /\ h_o (fst r) = h_o s /\ r_s (fst r) = h_s s /\ r_o (fst r) = h_o s
+    /\ assign_outcome (ints s) (at3 T d (get T (heap s) (h_s s)) a) (at3 T d (get T (heap s) (h_o s)) a) a vals (ints (fst r)) (snd r).
+  Proof.
+    intros s a vals Ha r. destruct (step_assign_spec T present store restore teqb d store_err s a vals) as (A & B & C & D & E & F).
+    repeat split; auto. apply assigned_axis; assumption.
+  Qed.
+
+  Lemma step_rec_assign_axis : forall s a vals, (a < 3)%nat ->
+    let r := step T present store restore teqb d s (RecAssign a vals) in
+    heap (fst r) = heap s /\ h_s (fst r) = h_s s /\ h_o (fst r) = h_o s /\ r_s (fst r) = r_s s /\ r_o (fst r) = r_o s
+    /\ assign_outcome (ints s) (at3 T d (get T (heap s) (r_s s)) a) (at3 T d (get T (heap s) (r_o s)) a) a vals (ints (fst r)) (snd r).
+  Proof.
+    intros s a vals Ha r. destruct (step_rec_assign_spec T present store restore teqb d store_err s a vals) as (A & B & C & D & E & F).
+    repeat split; auto. apply assigned_axis; assumption.
+  Qed.
+
+  (* las.change_scaling(ns, no): None keeps the record's own array *)
+  Definition change_outcome (s : st T) (ns no : option (list T)) (r : st T * out T) : Prop :=
+    let rs := get T (heap s) (r_s s) in let ro := get T (heap s) (r_o s) in
+    let ns' := match ns with Some a => a | None => rs end in
+    let no' := match no with Some a => a | None => ro end in
+    (forall i, (i < length (heap s))%nat -> get T (heap (fst r)) i = get T (heap s) i) /\
+    match snd r with
+    | ONone => get T (heap (fst r)) (r_s (fst r)) = ns' /\ get T (heap (fst r)) (r_o (fst r)) = no'
+               /\ h_s (fst r) = (match ns with Some _ => r_s (fst r) | None => h_s s end)
+               /\ h_o (fst r) = (match no with Some _ => r_o (fst r) | None => h_o s end)
+               /\ length (ints (fst r)) = 3%nat
+               /\ forall k, (k < 3)%nat ->
+                    Forall2 (rescaled_int T present restore d rs ro ns' no' k) (nth k (ints s) []) (nth k (ints (fst r)) [])
+    | OErr e => e = EOverflow
+                /\ (exists k X, (k < 3)%nat /\ In X (nth k (ints s) []) /\
+                      restore (present X (at3 T d rs k) (at3 T d ro k)) (at3 T d ns' k) (at3 T d no' k) = Err EOverflow)
+                /\ ints (fst r) = ints s /\ r_s (fst r) = r_s s /\ r_o (fst r) = r_o s /\ h_s (fst r) = h_s s /\ h_o (fst r) = h_o s
+    | OFile _ => False
+    end.
+
+  Lemma step_change_scaling_axes : forall s ns no, wf s ->
+    change_outcome s ns no (step T present store restore teqb d s (ChangeScaling ns no)).
+  Proof.
+    intros s ns no W.
+    pose proof (step_change_scaling_spec T present store restore teqb d restore_fits restore_err s ns no W) as H.
+    cbv zeta in H. unfold change_outcome.
+    destruct (step T present store restore teqb d s (ChangeScaling ns no)) as [s' x]. cbn [fst snd] in *.
+    destruct H as [HH H]. split; [exact HH|]. destruct x as [|e|f]; [| |exact H].
+    - destruct H as (A & B & C & D & F2). apply rescaled_axes in F2. destruct F2 as [L F2]. repeat split; auto.
+    - destruct H as (-> & OV & R). split; [reflexivity|]. split; [|exact R]. apply overflows_axes in OV. exact OV.
+  Qed.
+End AxesAssign.
+
+(* exact instance *)
+Definition q_assigned_int (sc off : Q) (v : Q) (X : Z) : Prop :=
+  X = q_store v sc off /\ fitsP X /\ ((0 < sc)%Q -> (Qabs (q_present X sc off - v) <= sc / 2)%Q).
+
+Lemma q_assign_after : forall ops s0 a vals, wf s0 -> (a < 3)%nat ->
+  let s := fst (q_run s0 ops) in
+  let sc := at3 Q 0%Q (get Q (heap s) (h_s s)) a in let off := at3 Q 0%Q (get Q (heap s) (h_o s)) a in
+  let r := q_step s (Assign a vals) in
+  heap (fst r) = heap s /\ h_s (fst r) = h_s s /\ h_o (fst r) = h_o s /\ r_s (fst r) = h_s s /\ r_o (fst r) = h_o s /\
+  match snd r with
+  | ONone => vals = [] /\ ints (fst r) = ints s
+             \/ exists xs, Forall2 (q_assigned_int sc off) vals xs
+                           /\ length xs = length (nth a (ints s) []) /\ ints (fst r) = set_at (ints s) a xs
+  | OErr e => ints (fst r) = ints s /\
+              (e = EOverflow /\ (exists v, In v vals /\ ~ fitsP (q_store v sc off))
+               \/ e = EValue /\ length vals <> length (nth a (ints s) []))
+  | OFile _ => False
+  end.
+Proof.
+  intros ops s0 a vals W Ha s sc off r.
+  pose proof (step_assign_axis Q q_present q_store_checked q_restore_checked Qeq_bool 0%Q q_store_err s a vals Ha) as H.
+  cbv zeta in H. change (step Q q_present q_store_checked q_restore_checked Qeq_bool 0%Q s (Assign a vals)) with r in H.
+  fold sc off in H. destruct r as [s' x]. cbn [fst snd] in *. destruct H as (A & B & C & D & E & F). repeat split; auto.
+  unfold assign_outcome in F. destruct x as [|e|f]; [| |exact F].
+  - destruct F as [F|(xs & F1 & F2 & F3)]; [left; exact F|right]. exists xs. repeat split; auto.
+    eapply Forall2_impl; [|exact F1]. intros v X HX. apply q_checked_ok in HX. destruct HX as [-> HX].
+    unfold q_assigned_int. repeat split; auto; try apply HX. intros Hs. apply q_half_step. exact Hs.
+  - destruct F as [F0 [[-> (v & Hin & Hv)]|F]]; (split; [exact F0|]); [left|right; exact F].
+    split; [reflexivity|]. exists v. split; [exact Hin|]. apply q_checked_err in Hv. exact (proj2 Hv).
+Qed.
+
+Lemma f_assign_after : forall ops s0 a vals, wf s0 -> (a < 3)%nat ->
+  let s := fst (f_run s0 ops) in
+  let sc := at3 fl None (get fl (heap s) (h_s s)) a in let off := at3 fl None (get fl (heap s) (h_o s)) a in
+  let r := f_step s (Assign a vals) in
+  heap (fst r) = heap s /\ h_s (fst r) = h_s s /\ h_o (fst r) = h_o s /\ r_s (fst r) = h_s s /\ r_o (fst r) = h_o s /\
+  match snd r with
+  | ONone => vals = [] /\ ints (fst r) = ints s
+             \/ exists xs, Forall2 (fun v X => f_store v sc off = Some X /\ fitsP X) vals xs
+                           /\ length xs = length (nth a (ints s) []) /\ ints (fst r) = set_at (ints s) a xs
+  | OErr e => ints (fst r) = ints s /\
+              (e = EOverflow /\ (exists v, In v vals /\ f_store_checked v sc off = Err EOverflow)
+               \/ e = EValue /\ length vals <> length (nth a (ints s) []))
+  | OFile _ => False
+  end.
+Proof.
+  intros ops s0 a vals W Ha s sc off r.
+  pose proof (step_assign_axis fl f_present f_store_checked f_restore_checked fl_eqb None f_store_err s a vals Ha) as H.
+  cbv zeta in H. change (step fl f_present f_store_checked f_restore_checked fl_eqb None s (Assign a vals)) with r in H.
+  fold sc off in H. destruct r as [s' x]. cbn [fst snd] in *. destruct H as (A & B & C & D & E & F). repeat split; auto.
+  unfold assign_outcome in F. destruct x as [|e|f]; [| |exact F].
+  - destruct F as [F|(xs & F1 & F2 & F3)]; [left; exact F|right]. exists xs. repeat split; auto.
+    eapply Forall2_impl; [|exact F1]. intros v X HX. apply f_checked_ok in HX. exact HX.
+  - exact F.
+Qed.
+
+Definition q_rescaled_int (rs ro ns no : list Q) (k : nat) (X X' : Z) : Prop :=
+  X' = q_store (q_present X (at3 Q 0%Q rs k) (at3 Q 0%Q ro k)) (at3 Q 0%Q ns k) (at3 Q 0%Q no k) /\ fitsP X' /\ q_close rs ro ns no k X X'.
+
+Lemma q_rescaled_int_of : forall rs ro ns no k X X',
+  rescaled_int Q q_present q_restore_checked 0%Q rs ro ns no k X X' -> q_rescaled_int rs ro ns no k X X'.
+Proof.
+  intros rs ro ns no k X X' H. unfold rescaled_int in H. apply q_rechecked_ok in H. destruct H as [-> F].
+  unfold q_rescaled_int. split; [reflexivity|]. split; [exact F|].
+  intros Hpos. rewrite q_restore_law, <- q_store_law. apply q_half_step. exact Hpos.
+Qed.
+
+Lemma q_change_scaling_after : forall ops s0 ns no, wf s0 ->
+  let s := fst (q_run s0 ops) in
+  change_outcome Q q_present q_restore_checked 0%Q s ns no (q_step s (ChangeScaling ns no)).
+Proof.
+  intros ops s0 ns no W s. apply step_change_scaling_axes; [exact q_restore_fits|exact q_restore_err|].
+  apply q_run_wf. exact W.
+Qed.
+
+Lemma f_change_scaling_after : forall ops s0 ns no, wf s0 ->
+  let s := fst (f_run s0 ops) in
+  change_outcome fl f_present f_restore_checked None s ns no (f_step s (ChangeScaling ns no)).
+Proof.
+  intros ops s0 ns no W s. apply step_change_scaling_axes; [exact f_restore_fits|exact f_rechecked_err|].
+  apply f_run_wf. exact W.
+Qed.
